@@ -200,10 +200,8 @@ def run_schedule(F, case, sched, B, log, counters):
             try:
                 F.replace_edge(host, edge, wrong)
                 raised = None
-            except ValueError as ex:
+            except Exception as ex:      # the statement says "rejects"; the class of the exception is not part of it
                 raised = ex
-            except Exception as ex:
-                V('wrong-type', ['other-exception', type(ex).__name__], f'replace_edge with a replacement of another type raised {type(ex).__name__}: {ex}')
             if raised is None:
                 V('wrong-type', ['accepted'], f'replace_edge accepted a replacement of type {wt} for an edge of type {[l.name for l in edge.label.type]}')
             if gsnap(host) != before:
